@@ -114,6 +114,8 @@ def run_shard(spec, ctx):
                     ctx.count("scipy_small_budget_calls")
             else:
                 settings.update(n_iter=n_iter, n_burn_in_iter=nb, n_burn_in_iter_frac=None)
+                if (spec["k"] + i + rep) % 2:
+                    del settings["n_burn_in_iter_frac"]  # the explicit count (0 included) replaces the default fraction
                 if anneal:
                     settings.update(annealing=dict(do_annealing=True, initial_temperature=float(rng.choice([5.0, 10.0])), n_plateau=int(rng.integers(2, 6)),
                                                    n_iter=None, n_iter_frac=0.5))
